@@ -26,3 +26,8 @@ def run(ctx):
                 "rule": "one case per (response type, version, codec, cut position k): the fake broker delivers exactly k bytes of the response frame and closes; every k of every frame in thorough, every k of the first 100 bytes plus a seeded sample in quick; non-trivial = k < frame length",
                 "exhaustive": ctx.tier == "thorough"})
     return cov
+
+
+def replay(ctx, path):
+    from engines import replayer
+    return replayer.replay(ctx, path)
